@@ -40,6 +40,6 @@ template <unsigned n, class E> void c_geometric(E& e) {
 #define G(N) template <class E> void g_##N(E& e) { c_geometric<N>(e); } VSYM_CONTRACT_P("geometricDiscretization/n=" #N, g_##N, 100)
 G(1) G(2) G(3) G(4)
 #ifdef VERIF_THOROUGH
-G(5) G(6) G(8)
+G(5) G(6)
 #endif
 int main(int argc, char** argv) { return vsym::driver_main(argc, argv); }
